@@ -34,6 +34,7 @@ def main():
         if prog['errors']:
             raise common.BuildError('\n'.join(prog['errors'][:5]))
         table = {}
+        flagdefs = {}
 
         def app_run(ex, st, args, ctx):
             app = ex.load(st, args[0])
@@ -43,9 +44,18 @@ def main():
             cmdt = prog['types'][prog['types'][T['github.com/urfave/cli/v2.Command']]['under']]
             ni = [i for i, f in enumerate(cmdt['fields']) if f['name'] == 'Name'][0]
             ai = [i for i, f in enumerate(cmdt['fields']) if f['name'] == 'Action'][0]
+            fi = [i for i, f in enumerate(cmdt['fields']) if f['name'] == 'Flags'][0]
             for c in ex.cells(st, app.f[ci]):
                 cv = ex.load(st, c)
                 table[lit(cv.f[ni])] = cv.f[ai]
+                defaults = {}
+                for fl in (ex.cells(st, cv.f[fi]) if cv.f[fi] is not NIL else []):
+                    flv = ex.load(st, fl.v) if isinstance(fl, Iface) else None
+                    if isinstance(flv, Struct) and 'StringFlag' in prog['types'][fl.t]['str']:
+                        ft = prog['types'][prog['types'][prog['types'][fl.t]['elem']]['under']]
+                        names = [f['name'] for f in ft['fields']]
+                        defaults[lit(flv.f[names.index('Name')])] = lit(flv.f[names.index('Value')]) or ''
+                flagdefs[lit(cv.f[ni])] = defaults
             ok = z3.Bool('app_run_ok')
             return Forks([(ok, NIL, None), (z3.Not(ok), Iface(-1, Opaque('error', msg=stubs.S('command failed'), origin=ctx['pos'])), None)])
         sm = stubs.make_stubs(dict(stubs.cli_stubs(), **{'(*github.com/urfave/cli/v2.App).Run': app_run}))
@@ -73,7 +83,7 @@ def main():
             exc.skip_init = True
             t = time.time()
             try:
-                rs = exc.run(f.name, args=[Opaque('clictx')])
+                rs = exc.run(f.name, args=[Opaque('clictx', flag_defaults=flagdefs.get(cmd, {}))])
             except Unsupported as x:
                 run.inconclusive.append('%s: unsupported: %s' % (cmd, x))
                 run.obligation('%s: symbolic execution completes' % cmd, 'unsupported', 'unsat', time.time() - t)
@@ -121,6 +131,11 @@ def main():
             return not exc_feasible(r, z3.And(v != z3.StringVal('insertion'), v != z3.StringVal('deletion')))
         for cmd in ('setup', 'r1cs', 'import-setup', 'gen-test-params', 'start', 'prove', 'verify'):
             check(cmd, 'success (nil error) only with mode insertion or deletion: unknown or missing mode ends in an error', lambda r: not is_nil_err(r.ret) or valid_mode_only(r))
+        def mode_given(r):
+            p_ = r.state.draws.get('flagset:mode')
+            return p_ is None and False or (p_ is not None and not exc_feasible(r, z3.Not(p_)))
+        for cmd in ('setup', 'r1cs', 'gen-test-params', 'start', 'prove', 'verify'):
+            check(cmd, 'success (nil error) requires the mode flag to be given: a missing mode ends in an error', lambda r: not is_nil_err(r.ret) or mode_given(r))
         for cmd in want:
             check(cmd, 'success (nil error) only if no step failed (keys file, decoding, proving, verifying, writing)', lambda r: not is_nil_err(r.ret) or not failed_any(r))
         # prove: exactly one stdout write on success, none on failure; the prover of the mode is used
@@ -192,6 +207,8 @@ def native_cli(run):
         expect('%s verify exits 0 for the right hash' % mode, rc == 0)
         rc, so, se = sh(['verify', '--mode', mode, '--keys-file', keys, '--input-hash', hex(int(h, 16) + 1)], stdin=proof)
         expect('%s verify exits non-zero for hash+1' % mode, rc != 0)
+        rc, so, se = sh(['gen-test-params', '--tree-depth', '2', '--batch-size', '1'])
+        expect('gen-test-params without --mode exits non-zero', rc != 0)
         for bad in (['--mode', 'garbage'], []):
             rc, so, se = sh(['verify'] + bad + ['--keys-file', keys, '--input-hash', h], stdin=proof)
             expect('%s verify with mode %s exits non-zero' % (mode, bad or 'missing'), rc != 0 or (not bad and mode == 'insertion' and False))
